@@ -859,9 +859,15 @@ impl<'a> FragFinder<'a> {
             let (from, after) = match from.strip_prefix('>') { Some(f) => (f, true), None => (from, false) };
             let mut start = None;
             let mut pending_after = false;
+            // prefixes are compared without white space (a statement may be laid out over several lines)
+            let nows = |x: &str| x.chars().filter(|c| !c.is_whitespace()).collect::<String>();
+            let from_s = nows(from);
+            let to_s = nows(to);
+            let (from, to) = (from_s.as_str(), to_s.as_str());
             for st in &b.stmts {
                 let (s, e) = rng(st.span());
-                let t = self.src[s..e].trim_start();
+                let t_s = nows(&self.src[s..e]);
+                let t = t_s.as_str();
                 if pending_after && start.is_none() {
                     pending_after = false;
                     start = Some(s);
